@@ -55,6 +55,10 @@ Definition set_st (o : tord) (st : status) (clear : bool) : tord :=
      to_remaining := to_remaining o; to_in_blotter := to_in_blotter o; to_client := to_client o;
      to_red := if clear then None else to_red o; to_newprice := if clear then None else to_newprice o; to_ctx := to_ctx o |}.
 
+(* BaseControl._on_error: only an order that has not been placed yet (status None) is marked VIOLATION; an order that has been
+   sent keeps its status (it only gets the violation message, which is not part of the model) *)
+Definition refuse_mark (o : tord) : tord := if status_eqb (to_status o) SNone then set_st o SViolation true else o.
+
 (* one request inside a transaction; [ctl_ok]: do all the controls accept this request (oracle) *)
 Definition do_req (ctl_ok : bool) (t : txn) (os : list tord) (r : treq) : txn * list tord * tres :=
   match r with
@@ -64,7 +68,7 @@ Definition do_req (ctl_ok : bool) (t : txn) (os : list tord) (r : treq) : txn * 
       | Some o =>
           let os := tupd name (fun o => {| to_name := to_name o; to_status := to_status o; to_bet := to_bet o; to_type := to_type o; to_persist := to_persist o; to_price := to_price o;
                                           to_remaining := to_remaining o; to_in_blotter := to_in_blotter o; to_client := tx_client t; to_red := to_red o; to_newprice := to_newprice o; to_ctx := to_ctx o |}) os in
-          if execute && negb force && negb ctl_ok then (t, tupd name (fun o => set_st o SViolation true) os, TRefused)
+          if execute && negb force && negb ctl_ok then (t, tupd name refuse_mark os, TRefused)
           else
             let os1 := tupd name (fun o => set_st o SPending false) os in
             if to_in_blotter o then (t, os1, TRaisedPlaced)          (* order.place() ran before the membership test *)
@@ -80,7 +84,7 @@ Definition do_req (ctl_ok : bool) (t : txn) (os : list tord) (r : treq) : txn * 
       | None => (t, os, TRaisedGuard)
       | Some o =>
           if negb (to_client o =? tx_client t) then (t, os, TRaisedClient)
-          else if negb force && negb ctl_ok then (t, tupd name (fun o => set_st o SViolation true) os, TRefused)
+          else if negb force && negb ctl_ok then (t, tupd name refuse_mark os, TRefused)
           else if negb (to_bet o) then (t, os, TRaisedGuard)
           else match to_type o with
                | TLimit =>
@@ -98,7 +102,7 @@ Definition do_req (ctl_ok : bool) (t : txn) (os : list tord) (r : treq) : txn * 
       | None => (t, os, TRaisedGuard)
       | Some o =>
           if negb (to_client o =? tx_client t) then (t, os, TRaisedClient)
-          else if negb force && negb ctl_ok then (t, tupd name (fun o => set_st o SViolation true) os, TRefused)
+          else if negb force && negb ctl_ok then (t, tupd name refuse_mark os, TRefused)
           else if negb (to_bet o) then (t, os, TRaisedGuard)
           else match to_type o with
                | TLimit =>
@@ -116,7 +120,7 @@ Definition do_req (ctl_ok : bool) (t : txn) (os : list tord) (r : treq) : txn * 
       | None => (t, os, TRaisedGuard)
       | Some o =>
           if negb (to_client o =? tx_client t) then (t, os, TRaisedClient)
-          else if negb force && negb ctl_ok then (t, tupd name (fun o => set_st o SViolation true) os, TRefused)
+          else if negb force && negb ctl_ok then (t, tupd name refuse_mark os, TRefused)
           else if negb (to_bet o) then (t, os, TRaisedGuard)
           else match to_type o with
                | TLimit | TLoc =>
